@@ -43,7 +43,7 @@ def sends_from_log(spec_by, log_delta):
         else:
             continue
         for j, s in enumerate(lst or []):
-            data = {'uid': v * 10 + j}
+            data = {'uid': s.get('uid_base', 0) + v * 10 + j}
             if s.get('delay') is not None:
                 data['delay'] = s['delay']
             data.update(s.get('params') or {})
